@@ -377,7 +377,14 @@ func (eng *Engine) initIntrinsics() {
 		}
 		return ex.f.Cmp(OpSLt, x.t, Const(0, 64))
 	}
-	for name, fn := range map[string]func(float64) float64{"math.Floor": math.Floor, "math.Ceil": math.Ceil, "math.Trunc": math.Trunc, "math.Sqrt": math.Sqrt, "math.Log10": math.Log10, "math.Log2": math.Log2, "math.Round": math.Round} {
+	in["math.Trunc"] = func(ex *Exec, _ *frame, _ *ssa.Function, a []Value) Value {
+		x := a[0].(FloatV)
+		if x.t == nil {
+			return FloatV{f: math.Trunc(x.f), bits: 64}
+		}
+		return FloatV{t: ex.f.FOp(OpFTrunc, 64, x.t, nil), bits: 64}
+	}
+	for name, fn := range map[string]func(float64) float64{"math.Floor": math.Floor, "math.Ceil": math.Ceil, "math.Sqrt": math.Sqrt, "math.Log10": math.Log10, "math.Log2": math.Log2, "math.Round": math.Round} {
 		fn := fn
 		nm := name
 		in[name] = func(ex *Exec, _ *frame, _ *ssa.Function, a []Value) Value {
